@@ -299,6 +299,80 @@ func judge(c *Case) *core.Verdict {
 			}
 		}
 	}
+	if c.Prop == "C12" && !strings.Contains(text, "augment ") && !strings.Contains(text, "deviation ") {
+		// the same answers without Process: trees built directly by ToEntry after the groupings' own entries were
+		// built and inspected first (ReadOnly is a function of the instantiated path, not of what was asked before)
+		ms3 := yang.NewModules()
+		ok := true
+		for _, n := range names {
+			if err := ms3.Parse(RenderModule(c.Prog.Mods[n]), n+".yang"); err != nil {
+				ok = false
+			}
+		}
+		if ok {
+			var touch func(e *yang.Entry, d int)
+			touch = func(e *yang.Entry, d int) {
+				if e == nil || d > 12 {
+					return
+				}
+				e.ReadOnly()
+				for _, k := range e.Dir {
+					touch(k, d+1)
+				}
+				if e.RPC != nil {
+					touch(e.RPC.Input, d+1)
+					touch(e.RPC.Output, d+1)
+				}
+			}
+			var groupings func(n yang.Node, d int)
+			groupings = func(n yang.Node, d int) {
+				if gs, ok := n.(interface{ Groupings() []*yang.Grouping }); ok && d < 8 {
+					for _, g := range gs.Groupings() {
+						touch(yang.ToEntry(g), 0)
+					}
+				}
+			}
+			for _, mm := range []map[string]*yang.Module{ms3.Modules, ms3.SubModules} {
+				for _, m := range mm {
+					for _, g := range m.Grouping {
+						touch(yang.ToEntry(g), 0)
+					}
+					groupings(m, 0)
+				}
+			}
+			for _, n := range names {
+				m := ms3.Modules[n]
+				if m == nil || c.Prog.Mods[n].Kind != "module" {
+					continue
+				}
+				root := yang.ToEntry(m)
+				for _, f := range c.Flat[n] {
+					e := root
+					for _, step := range f.P {
+						if e == nil {
+							break
+						}
+						nx := e.Dir[step]
+						if nx == nil && e.RPC != nil {
+							switch step {
+							case "input":
+								nx = e.RPC.Input
+							case "output":
+								nx = e.RPC.Output
+							}
+						}
+						e = nx
+					}
+					if e == nil || f.Opcfg || f.Implicit {
+						continue // (implicit cases exist only after Process)
+					}
+					if got := e.ReadOnly(); got != f.Ro {
+						return fail("readonly-differs-without-process", "module %s path %s: built by ToEntry without Process, after the groupings' own entries were inspected: specification %v, library %v", n, strings.Join(f.P, "/"), f.Ro, got)
+					}
+				}
+			}
+		}
+	}
 	if c.Prop == "C06" {
 		// later uses: a second run over the same set instantiates every grouping again, with the same result
 		if errs2 := ms.Process(); len(errs2) > 0 {
